@@ -34,7 +34,7 @@ RULE = ("Round 8: before its session is claimed an association also gets datagra
         "deliveries checked"
         ". Round-5 additions: 12% of the valid traffic are the messages whose content the proxy reads on the way through (owner-say chat with RLV-looking and near-RLV text incl. bare '@', leading whitespace, missing NUL, invalid UTF-8; region handshakes; agent data updates; chat commands); a template-conformant datagram (independent encoder) that the library's decoder refuses is a violation, not a harness failure"
         ". Round 7: one association sends to 1400 (thorough 5000) distinct unrelated addresses; every 64 the open circuit's traffic must still be delivered once in both directions; extras with isolated zeros"
-        ". Round 9: 8% of the valid traffic carries the ACK flag with a trailer that counts no acks; associations opened through the real SOCKS5 control-connection handler (stand-in sockets) while other control connections come and go (logout, failed greetings, unsupported commands). Round 11: the viewer comes back on another UDP port of the same host between an earlier (refused) datagram to a simulator and the UseCircuitCode that opens or re-opens the circuit; the circuit then belongs to the new port")
+        ". Round 9: 8% of the valid traffic carries the ACK flag with a trailer that counts no acks; associations opened through the real SOCKS5 control-connection handler (stand-in sockets) while other control connections come and go (logout, failed greetings, unsupported commands). Round 11: the viewer comes back on another UDP port of the same host between an earlier datagram to a simulator (circuit not open; not judged) and the UseCircuitCode that opens or re-opens the circuit; the circuit then belongs to the new port")
 ASSUMPTIONS = [
     "an open circuit = UseCircuitCode seen from the viewer for a region the session knows, not (yet) closed by "
     "CloseCircuit/DisableSimulator; nothing is demanded for closed circuits until a new UseCircuitCode",
